@@ -93,7 +93,9 @@ func allStructs(v reflect.Value, fn func(s reflect.Value), depth int) {
 			fn(v)
 		}
 		for i := 0; i < v.NumField(); i++ {
-			allStructs(v.Field(i), fn, depth+1)
+			if v.Type().Field(i).IsExported() {
+				allStructs(v.Field(i), fn, depth+1)
+			}
 		}
 	}
 }
